@@ -254,13 +254,50 @@ fn call_real_inner(re: &Regex, text: &str, n: usize, rep: &Rep, entry: Entry) ->
         }
         Rep::ConstClosure(s) => go!(|_: &Captures<'_>| s.clone()),
         Rep::NoExpand(s) => go!(NoExpand(s.as_str())),
-        Rep::Str(s) => go!(s.as_str()),
+        Rep::Str(s) => carried(re, text, n, entry, s),
         Rep::OwnedString(s) => go!(s.clone()),
         Rep::CowStr(s) => go!(Cow::<str>::Owned(s.clone())),
         Rep::Template(t) => {
             let tpl = Rep::template_string(t);
-            go!(tpl.as_str())
+            carried(re, text, n, entry, &tpl)
         }
+    }
+}
+
+/// A string replacement handed over in one of the types that implement Replacer (&str, String,
+/// &String, Cow<str> borrowed, &Cow<str>); which one is a function of the string itself, so a
+/// replay uses the same carrier.
+fn carried(re: &Regex, text: &str, n: usize, entry: Entry, s: &str) -> Outcome<RepOut> {
+    macro_rules! go {
+        ($r:expr) => {
+            match entry {
+                Entry::TryReplacen => guarded(|| re.try_replacen(text, n, $r).map(|c| (c.to_string(), is_borrowed_of(&c, text)))),
+                Entry::Replacen => guarded_plain(|| {
+                    let c = re.replacen(text, n, $r);
+                    (c.to_string(), is_borrowed_of(&c, text))
+                }),
+                Entry::Replace => guarded_plain(|| {
+                    let c = re.replace(text, $r);
+                    (c.to_string(), is_borrowed_of(&c, text))
+                }),
+                Entry::ReplaceAll => guarded_plain(|| {
+                    let c = re.replace_all(text, $r);
+                    (c.to_string(), is_borrowed_of(&c, text))
+                }),
+            }
+        };
+    }
+    let mut h = Fnv::new();
+    h.str(s);
+    h.str(text);
+    let owned = s.to_string();
+    let cow: Cow<'_, str> = Cow::Borrowed(s);
+    match h.0 % 5 {
+        0 => go!(s),
+        1 => go!(owned.clone()),
+        2 => go!(&owned),
+        3 => go!(cow.clone()),
+        _ => go!(&cow),
     }
 }
 
